@@ -6,8 +6,10 @@ The judge (Gov.check_case, Strategy.judge_decide) runs inside Coq: first the pro
 on the implementation's own trace, then model = implementation."""
 import json
 import os
+import random
 import shutil
 import subprocess
+import threading
 from fractions import Fraction
 
 import vlib
@@ -307,9 +309,16 @@ def par_coq(name, srcs, timeout=1500):
 # ------------------------------------------------------------------------------------------------
 # interactive driver session (adaptive generation)
 
+_drv_seq = [0]
+_drv_lock = threading.Lock()
+
+
 class Driver:
     def __init__(self, exe):
-        self.tmp = os.path.join("/tmp", "verif-gov-%d" % os.getpid())
+        with _drv_lock:
+            _drv_seq[0] += 1
+            k = _drv_seq[0]
+        self.tmp = os.path.join("/tmp", "verif-gov-%d-%d" % (os.getpid(), k))
         os.makedirs(self.tmp, exist_ok=True)
         self.p = subprocess.Popen([exe, "gov-i"], stdin=subprocess.PIPE, stdout=subprocess.PIPE, stderr=subprocess.DEVNULL,
                                   text=True, env=dict(os.environ, TMPDIR=self.tmp))
@@ -505,8 +514,26 @@ def pub(h):
     return {k: v for k, v in h.items() if not k.startswith("_")}
 
 
-def gen_histories(ctx, exe, count, maxlen, nonmono_p=0.2):
-    r = ctx.rng
+def gen_histories(ctx, exe, count, maxlen, nonmono_p=0.2, workers=8):
+    """adaptive generation on `workers` interactive drivers in parallel; deterministic for a seed:
+    every worker has its own generator seeded from ctx.rng and results are concatenated in order"""
+    workers = max(1, min(workers, count))
+    seeds = [ctx.rng.getrandbits(64) for _ in range(workers)]
+    shares = [count // workers + (1 if i < count % workers else 0) for i in range(workers)]
+    outs = [None] * workers
+
+    def work(i):
+        outs[i] = gen_histories_seq(ctx, exe, random.Random(seeds[i]), shares[i], maxlen, nonmono_p)
+
+    ts = [threading.Thread(target=work, args=(i,)) for i in range(workers)]
+    for t in ts:
+        t.start()
+    for t in ts:
+        t.join()
+    return [x for o in outs if o for x in o]
+
+
+def gen_histories_seq(ctx, exe, r, count, maxlen, nonmono_p=0.2):
     d = Driver(exe)
     out = []
     try:
@@ -639,11 +666,58 @@ def gen_theme(r):
                 accts=[100, 101, 200, 201], nodes=2, blocks=blocks)
 
 
+def run_lines(exe, sub, lines, workers=8, timeout=3600):
+    """feed JSON lines to `workers` driver processes in parallel (own TMPDIR each); returns outputs in order or (None, err)"""
+    if not lines:
+        return [], ""
+    workers = max(1, min(workers, (len(lines) + 19) // 20))
+    chunks = [lines[i::workers] for i in range(workers)]
+    res = [None] * workers
+    errs = [""] * workers
+
+    def work(i):
+        with _drv_lock:
+            _drv_seq[0] += 1
+            k = _drv_seq[0]
+        tmp = os.path.join("/tmp", "verif-gov-%d-%d" % (os.getpid(), k))
+        os.makedirs(tmp, exist_ok=True)
+        try:
+            inp = "\n".join(json.dumps(l, separators=(",", ":")) for l in chunks[i]) + "\n"
+            rc, o, e = vlib.sh([exe, sub], inp=inp, timeout=timeout, env=dict(os.environ, TMPDIR=tmp))
+            outs = []
+            for l in o.splitlines():
+                l = l.strip()
+                if l.startswith("{"):
+                    try:
+                        outs.append(json.loads(l))
+                    except ValueError:
+                        pass
+            if rc != 0 or len(outs) != len(chunks[i]):
+                errs[i] = "rc=%d %s" % (rc, e[-1000:])
+            else:
+                res[i] = outs
+        finally:
+            shutil.rmtree(tmp, ignore_errors=True)
+
+    ts = [threading.Thread(target=work, args=(i,)) for i in range(workers)]
+    for t in ts:
+        t.start()
+    for t in ts:
+        t.join()
+    if any(r is None for r in res):
+        return None, "; ".join(e for e in errs if e)
+    out = [None] * len(lines)
+    for i in range(workers):
+        for j, o in enumerate(res[i]):
+            out[i + j * workers] = o
+    return out, ""
+
+
 def run_batch(exe, hs):
     """run complete histories through the batch driver; returns list of (init, steps) or None"""
-    rc, outs, e = vlib.run_driver(exe, "gov", [pub(h) for h in hs], timeout=1800)
-    if rc != 0 or len(outs) != len(hs):
-        return None, e[-1500:]
+    outs, e = run_lines(exe, "gov", [pub(h) for h in hs])
+    if outs is None:
+        return None, e
     res = []
     for o in outs:
         if o.get("err"):
@@ -901,8 +975,8 @@ def decide_cases(ctx):
 def run_decide(ctx, exe, known, stats):
     cases = decide_cases(ctx)
     lines = [dict(expr=b_go(e), a=a, r=rr, t=t, avail=av, n=n) for (e, a, rr, t, av, n) in cases]
-    rc, outs, err = vlib.run_driver(exe, "decide", lines, timeout=1800)
-    if rc != 0 or len(outs) != len(cases):
+    outs, err = run_lines(exe, "decide", lines, workers=2)
+    if outs is None or len(outs) != len(cases):
         ctx.broken("driver:decide", err[-1500:])
         return
     uf = "true" if (CFG_CURRENT & 2) else "false"
@@ -1016,7 +1090,7 @@ def run(ctx):
                 ctx.broken("driver:gov", e)
             else:
                 process(ctx, exe, [(h, ini, st) for h, (ini, st) in zip(corpus, res)], known, stats, do_shrink=False)
-        count, maxlen = (150, 18) if ctx.quick else (6000, 26)
+        count, maxlen = (420, 18) if ctx.quick else (8000, 26)
         done = 0
         while done < count:
             k = min(300, count - done)
@@ -1025,7 +1099,7 @@ def run(ctx):
             done += k
             if ctx.violations and done >= 300:
                 break
-        themed = [gen_theme(ctx.rng) for _ in range(60 if ctx.quick else 3000)]
+        themed = [gen_theme(ctx.rng) for _ in range(180 if ctx.quick else 4000)]
         for i in range(0, len(themed), 400):
             part = themed[i:i + 400]
             res, e = run_batch(exe, part)
@@ -1062,7 +1136,7 @@ def replay(ctx, path):
         print("harness build failed", err)
         return 1
     if obj.get("driver") == "decide":
-        rc, outs, e = vlib.run_driver(exe, "decide", [obj["input"]])
+        outs, e = run_lines(exe, "decide", [obj["input"]])
         print(json.dumps(dict(input=obj["input"], impl=outs)))
         return 0
     h = dict(obj["history"])
